@@ -36,4 +36,13 @@ def main():
 
 
 if __name__ == '__main__':
-    sys.exit(main())
+    try:
+        rc = main()
+    except SystemExit:
+        raise
+    except BaseException as e:   # a crash of the machinery is never a verdict
+        import traceback
+        traceback.print_exc()
+        sys.stderr.write('HARNESS ERROR: %s: %s\n' % (type(e).__name__, e))
+        rc = 2
+    sys.exit(rc)
